@@ -3,6 +3,11 @@
 //!
 //! ops:  `up <actor> <addr> <ts> <cluster>` · `down <actor> <addr> <ts> <cluster>` ·
 //!       `rtt <addr> <millis>` · `ring0 <cluster>`
+//!       the glue family — notifications that go through the REAL `handle_notifications` of a real agent:
+//!       `nup|ndown|nrename|nrejoin <actor> <addr> <ts> <cluster>` · `nactive` · `nidle` · `ndefunct`
+//!       queue an `OwnedNotification` (answer `queued`); `flush` moves the case's `Members` into the
+//!       agent, runs `handle_notifications` over the queue (one-slot channel, two trailing `Active`), and takes the
+//!       table back (answer `flushed | <state>`).
 //! after every op one line `<ret> | <states> | <by_addr> | <rtts>` (see lean/Driver/C18.lean).
 //!
 //! Small integers are mapped to real values so that the orders the code uses agree with the order
@@ -20,6 +25,14 @@ use std::time::Duration;
 use klukai_types::actor::{Actor, ActorId, ClusterId};
 use klukai_types::broadcast::Timestamp;
 use klukai_types::members::{MemberAddedResult, Members};
+use foca::OwnedNotification;
+use klukai_agent::agent::verif_hooks::handle_notifications;
+use klukai_agent::agent::{AgentOptions, setup};
+use klukai_types::agent::Agent;
+use klukai_types::channel::bounded;
+use klukai_types::config::Config;
+use klukai_types::tripwire::Tripwire;
+use std::sync::{Mutex, OnceLock};
 use uuid::Uuid;
 
 use crate::rng::Rng;
@@ -83,9 +96,38 @@ fn show_state(m: &Members) -> String {
 
 // ------------------------------------------------------------------ the oracle (independent of the model)
 
-/// `RING_BUCKETS` as the property understands them: ring i = average in [lo, hi) milliseconds
-const ORACLE_BUCKETS: [(u64, u64); 6] = [(0, 6), (6, 15), (15, 50), (50, 100), (100, 200), (200, 300)];
-const ORACLE_WINDOW: usize = 20;
+/// The two tunables of `Members` (`RING_BUCKETS`, the `CircularBuffer` capacity) as `tools/extract_c18.py`
+/// reads them off members.rs at the start of every check (the same generated file the Lean driver
+/// imports).  The property does not fix their values ("ring 0" = first bucket of the table, "samples" =
+/// the window the code keeps); the REAL `Members` uses whatever the code has, these copies only feed the
+/// ring rule of the oracle, the generator's boundary values and the distribution tags, so a wrong
+/// extraction shows up as a diff / oracle failure.
+fn members_consts() -> &'static (Vec<(u64, u64)>, usize) {
+    static C: std::sync::OnceLock<(Vec<(u64, u64)>, usize)> = std::sync::OnceLock::new();
+    C.get_or_init(|| {
+        let path = concat!(env!("CARGO_MANIFEST_DIR"), "/../lean/Corro/Gen/MembersConsts.lean");
+        let text = std::fs::read_to_string(path).expect("Gen/MembersConsts.lean");
+        let after = |pat: &str| -> &str {
+            let at = text.find(pat).unwrap_or_else(|| panic!("`{pat}` missing in MembersConsts.lean"));
+            text[at + pat.len()..].lines().next().unwrap().trim()
+        };
+        let cap: usize = after("def rttCap : Nat := ").parse().expect("rttCap");
+        let list = after("def ringBuckets : List (Nat × Nat) := ");
+        let nums: Vec<u64> = list
+            .split(|c: char| !c.is_ascii_digit())
+            .filter(|t| !t.is_empty())
+            .map(|t| t.parse().expect("bucket bound"))
+            .collect();
+        assert!(nums.len() % 2 == 0 && !nums.is_empty() && cap > 0, "MembersConsts.lean: malformed table");
+        (nums.chunks(2).map(|c| (c[0], c[1])).collect(), cap)
+    })
+}
+fn oracle_buckets() -> &'static [(u64, u64)] {
+    &members_consts().0
+}
+fn oracle_window() -> usize {
+    members_consts().1
+}
 
 #[derive(Clone, Copy, Debug, PartialEq)]
 struct Ident {
@@ -126,9 +168,9 @@ impl Oracle {
         if all.is_empty() {
             return None;
         }
-        let newest: Vec<u64> = all.iter().rev().take(ORACLE_WINDOW).copied().collect();
+        let newest: Vec<u64> = all.iter().rev().take(oracle_window()).copied().collect();
         let avg = newest.iter().sum::<u64>() / newest.len() as u64;
-        ORACLE_BUCKETS.iter().position(|(lo, hi)| *lo <= avg && avg < *hi).map(|i| i as u64)
+        oracle_buckets().iter().position(|(lo, hi)| *lo <= avg && avg < *hi).map(|i| i as u64)
     }
 
     fn notify(&mut self, is_up: bool, id: u64, addr: u64, ts: u64, cluster: u64) {
@@ -165,6 +207,17 @@ impl Oracle {
                 } else {
                     self.newest.insert(id, Ident { up: false, ..e });
                 }
+            }
+        }
+    }
+
+    /// two peers whose newest identity is up share an address (the intermediate states of a batch that
+    /// went through `handle_notifications` are not observable, the fold is)
+    fn note_shared_fold(&mut self) {
+        let mut seen: BTreeMap<u64, u64> = BTreeMap::new();
+        for (id, e) in self.newest.iter().filter(|(_, e)| e.up) {
+            if seen.insert(e.addr, *id).is_some() {
+                self.shared = true;
             }
         }
     }
@@ -270,6 +323,82 @@ impl Oracle {
     }
 }
 
+// ------------------------------------------------------------------ the glue: a real agent's handle_notifications
+
+const TMP_ROOT: &str = "/verif/harness/target/tmp";
+
+/// one real agent per process (built by `klukai_agent::agent::setup`, none of its loops running); its
+/// foca input channel is drained by a task so that the `ClusterSize` feedback never blocks
+struct GlueNode {
+    rt: tokio::runtime::Runtime,
+    agent: Agent,
+    _opts: Mutex<AgentOptions>,
+    _trip_tx: tokio::sync::mpsc::Sender<()>,
+}
+
+fn glue_node() -> Result<&'static GlueNode, String> {
+    static N: OnceLock<Result<GlueNode, String>> = OnceLock::new();
+    N.get_or_init(|| {
+        let dir = std::path::PathBuf::from(format!("{TMP_ROOT}/c18-{}", std::process::id()));
+        let _ = std::fs::remove_dir_all(&dir);
+        std::fs::create_dir_all(dir.join("schema")).map_err(|e| format!("tmp dir: {e}"))?;
+        let conf: Config = Config::builder()
+            .api_addr("127.0.0.1:0".parse().unwrap())
+            .gossip_addr("127.0.0.1:0".parse().unwrap())
+            .admin_path(dir.join("admin.sock").display().to_string())
+            .db_path(dir.join("corrosion.db").display().to_string())
+            .add_schema_path(dir.join("schema").display().to_string())
+            .build()
+            .map_err(|e| e.to_string())?;
+        let rt = tokio::runtime::Builder::new_multi_thread().worker_threads(2).enable_all().build().map_err(|e| e.to_string())?;
+        let (tripwire, worker, trip_tx) = Tripwire::new_simple();
+        let (agent, mut opts) = rt.block_on(async move {
+            tokio::spawn(worker);
+            setup(conf, tripwire).await.map_err(|e| format!("{e:#}"))
+        })?;
+        let _in_rt = rt.enter();
+        let (_dummy_tx, dummy_rx) = bounded(1, "verif-dummy");
+        let mut rx_foca = std::mem::replace(&mut opts.rx_foca, dummy_rx);
+        rt.spawn(async move { while rx_foca.recv().await.is_some() {} });
+        drop(_in_rt);
+        Ok(GlueNode { rt, agent, _opts: Mutex::new(opts), _trip_tx: trip_tx })
+    })
+    .as_ref()
+    .map_err(|e| e.clone())
+}
+
+/// the queued notifications through the real `handle_notifications`, on the case's member table
+fn flush_real(m: &mut Members, notifs: Vec<OwnedNotification<Actor>>) -> Result<(), String> {
+    let n = glue_node()?;
+    *n.agent.members().write() = std::mem::take(m);
+    let agent = n.agent.clone();
+    let res = n.rt.block_on(async move {
+        // `bounded` keeps a sender clone alive in its capacity-gauge task, so the receiver never sees the
+        // channel close.  A channel of ONE slot instead: a `send` returns only once the previous item has
+        // been taken out of the channel, so after two trailing sentinels (`Active`, which the loop only
+        // logs) have been accepted, the loop has gone round past the last real notification.
+        let (tx, rx) = bounded(1, "verif-notifications");
+        let h = tokio::spawn(handle_notifications(agent, rx));
+        let feed = async {
+            for x in notifs.into_iter().chain([OwnedNotification::Active, OwnedNotification::Active]) {
+                tx.send(x).await.map_err(|e| format!("send: {e}"))?;
+            }
+            Ok::<(), String>(())
+        };
+        let fed = match tokio::time::timeout(Duration::from_secs(60), feed).await {
+            Ok(r) => r,
+            Err(_) => Err("handle_notifications did not take its notifications within 60 s".to_string()),
+        };
+        h.abort();
+        match h.await {
+            Err(e) if e.is_panic() => Err(format!("handle_notifications panicked: {e}")),
+            _ => fed,
+        }
+    });
+    *m = std::mem::take(&mut *n.agent.members().write());
+    res
+}
+
 fn parse4(toks: &[&str]) -> Option<(u64, u64, u64, u64)> {
     let id: u64 = toks[1].parse().ok()?;
     let addr: u64 = toks[2].parse().ok()?;
@@ -288,9 +417,59 @@ fn exec(ops: &[String]) -> CaseResult {
     let mut o = Oracle::new();
     let mut max_samples = 0usize;
     let mut out_of_bucket = false;
+    // the glue family: notifications waiting for the next `flush`
+    let mut queue: Vec<(OwnedNotification<Actor>, Option<(bool, u64, u64, u64, u64)>)> = vec![];
+    let mut glue_used = false;
     for (step, op) in ops.iter().enumerate() {
         let toks: Vec<&str> = op.split_whitespace().collect();
         let line = match toks.first().copied() {
+            Some(k @ ("nup" | "ndown" | "nrename" | "nrejoin")) if toks.len() == 5 => match parse4(&toks) {
+                None => "bad-op".to_string(),
+                Some((id, addr, ts, cl)) => {
+                    let actor = Actor::new(actor_of(id), addr_of(addr), ts_of(ts), ClusterId(cl as u16));
+                    queue.push(match k {
+                        "nup" => (OwnedNotification::MemberUp(actor), Some((true, id, addr, ts, cl))),
+                        "ndown" => (OwnedNotification::MemberDown(actor), Some((false, id, addr, ts, cl))),
+                        "nrejoin" => (OwnedNotification::Rejoin(actor), None),
+                        _ => {
+                            let newer = Actor::new(actor_of(id), addr_of(addr), ts_of(ts + 1), ClusterId(cl as u16));
+                            (OwnedNotification::Rename(actor, newer), None)
+                        }
+                    });
+                    "queued".to_string()
+                }
+            },
+            Some(k @ ("nactive" | "nidle" | "ndefunct")) if toks.len() == 1 => {
+                queue.push((
+                    match k {
+                        "nactive" => OwnedNotification::Active,
+                        "nidle" => OwnedNotification::Idle,
+                        _ => OwnedNotification::Defunct,
+                    },
+                    None,
+                ));
+                "queued".to_string()
+            }
+            Some("flush") if toks.len() == 1 => {
+                glue_used = true;
+                let (notifs, folds): (Vec<_>, Vec<_>) = std::mem::take(&mut queue).into_iter().unzip();
+                if let Err(e) = flush_real(&mut m, notifs) {
+                    o.fails.push(format!("handle_notifications: step {step}: {e}"));
+                }
+                let folds: Vec<_> = folds.into_iter().flatten().collect();
+                let many = folds.len() > 1;
+                for (is_up, id, addr, ts, cl) in folds {
+                    o.notify(is_up, id, addr, ts, cl);
+                    // "one identity per address" has to hold at every point INSIDE the batch as well; for an
+                    // inadmissible sequence the fold does not tell who is listed in between: assume shared
+                    o.note_shared_fold();
+                    if many && !o.admissible {
+                        o.shared = true;
+                    }
+                }
+                o.check(&m, step);
+                format!("flushed | {}", show_state(&m))
+            }
             Some(k @ ("up" | "down")) if toks.len() == 5 => match parse4(&toks) {
                 None => "bad-op".to_string(),
                 Some((id, addr, ts, cl)) => {
@@ -370,11 +549,14 @@ fn exec(ops: &[String]) -> CaseResult {
     if o.addr_change_seen {
         r.tags.push("address-change-of-listed-member".into());
     }
-    if max_samples > ORACLE_WINDOW {
-        r.tags.push("more-than-20-samples".into());
+    if max_samples > oracle_window() {
+        r.tags.push("more-samples-than-window".into());
     }
     if out_of_bucket {
         r.tags.push("average-outside-buckets".into());
+    }
+    if glue_used {
+        r.tags.push("through-real-handle_notifications".into());
     }
     r.tags.push(format!("len:{}", match ops.len() { 0..=5 => "1-5", 6..=12 => "6-12", _ => "13-25" }));
     // one report per kind of failure is enough for a case
@@ -386,7 +568,23 @@ fn exec(ops: &[String]) -> CaseResult {
 
 // ------------------------------------------------------------------ generators
 
-const BOUNDARY_MS: [u64; 14] = [0, 5, 6, 14, 15, 49, 50, 99, 100, 199, 200, 299, 300, 1000];
+/// sample values on both sides of every bucket boundary of the source's table, plus one far outside
+/// (`[0, 5, 6, 14, 15, 49, 50, 99, 100, 199, 200, 299, 300, 1000]` for the table as it stands)
+fn boundary_ms() -> &'static [u64] {
+    static B: std::sync::OnceLock<Vec<u64>> = std::sync::OnceLock::new();
+    B.get_or_init(|| {
+        let mut v: Vec<u64> = vec![0];
+        let mut top = 0;
+        for (lo, hi) in oracle_buckets() {
+            v.extend([lo.saturating_sub(1), *lo, hi.saturating_sub(1), *hi]);
+            top = top.max(*hi);
+        }
+        v.push((top * 3).max(top + 700));
+        v.sort();
+        v.dedup();
+        v
+    })
+}
 
 /// tiny alphabet of the exhaustive enumeration: 2 peers, 2 timestamps, peer 1 on 2 addresses,
 /// peer 2 on address 1 (shared with peer 1), samples below/above every bucket
@@ -445,7 +643,7 @@ fn gen_seq(rng: &mut Rng) -> Vec<String> {
     let keep_distinct = rng.chance(13, 20);
     let burst_at = if rng.chance(1, 8) { Some(rng.below(4) as usize) } else { None };
     let len = match rng.below(10) {
-        _ if burst_at.is_some() => 25,
+        _ if burst_at.is_some() => 25.max(oracle_window() as u64 + 5),
         0 => rng.range(1, 5),
         1..=4 => rng.range(4, 12),
         _ => rng.range(10, 25),
@@ -456,12 +654,12 @@ fn gen_seq(rng: &mut Rng) -> Vec<String> {
     let mut ops: Vec<String> = vec![];
     while ops.len() < len {
         if Some(ops.len()) == burst_at {
-            // more than 20 samples for one address: one outlier, then a run on the other side of a boundary
+            // more samples than the window for one address: one outlier, then a run on the other side of a boundary
             let a = rng.range(1, n_addr);
-            let first = *rng.pick(&BOUNDARY_MS);
-            let rest = *rng.pick(&BOUNDARY_MS);
+            let first = *rng.pick(boundary_ms());
+            let rest = *rng.pick(boundary_ms());
             ops.push(format!("rtt {a} {first}"));
-            let n = rng.range(20, 21);
+            let n = rng.range(oracle_window() as u64, oracle_window() as u64 + 1);
             for _ in 0..n {
                 ops.push(format!("rtt {a} {rest}"));
             }
@@ -487,7 +685,7 @@ fn gen_seq(rng: &mut Rng) -> Vec<String> {
                     let free: Vec<u64> = (1..=n_addr).filter(|a| !st.occupied_by_other(id, *a)).collect();
                     if free.is_empty() {
                         // no free address: a sample instead
-                        ops.push(format!("rtt {} {}", rng.range(1, n_addr), rng.pick(&BOUNDARY_MS)));
+                        ops.push(format!("rtt {} {}", rng.range(1, n_addr), rng.pick(boundary_ms())));
                         continue;
                     }
                     addr = *rng.pick(&free);
@@ -520,9 +718,9 @@ fn gen_seq(rng: &mut Rng) -> Vec<String> {
                 let listed: Vec<u64> = st.newest.values().filter(|e| e.up).map(|e| e.addr).collect();
                 let a = if !listed.is_empty() && rng.chance(2, 3) { *rng.pick(&listed) } else { rng.range(1, n_addr) };
                 let ms = match rng.below(5) {
-                    0 => rng.range(0, 7),
-                    1 => rng.range(0, 400),
-                    _ => *rng.pick(&BOUNDARY_MS),
+                    0 => rng.range(0, oracle_buckets()[0].1 + 1),
+                    1 => rng.range(0, oracle_buckets().iter().map(|b| b.1).max().unwrap_or(0) + 100),
+                    _ => *rng.pick(boundary_ms()),
                 };
                 ops.push(format!("rtt {a} {ms}"));
             }
@@ -531,8 +729,54 @@ fn gen_seq(rng: &mut Rng) -> Vec<String> {
             }
         }
     }
-    ops.truncate(25);
+    ops.truncate(25.max(oracle_window() + 5));
     ops
+}
+
+/// the same sequence, its notifications delivered by the SWIM runtime: ups and downs are queued as
+/// `OwnedNotification`s, mixed with the notifications that must not touch the member table (a `Rename`
+/// / `Rejoin` carrying an identity that WOULD change the view if it were applied), and handed to
+/// `handle_notifications` in batches of random length
+fn to_glue(rng: &mut Rng, ops: Vec<String>) -> Vec<String> {
+    let mut out = vec![];
+    let mut queued = false;
+    for op in ops {
+        let toks: Vec<&str> = op.split_whitespace().collect();
+        match toks[0] {
+            "up" | "down" => {
+                out.push(format!("n{op}"));
+                queued = true;
+                if rng.chance(1, 3) {
+                    let id: u64 = toks[1].parse().unwrap();
+                    let ts: u64 = toks[3].parse().unwrap();
+                    out.push(match rng.below(6) {
+                        0 => "nactive".to_string(),
+                        1 => "nidle".to_string(),
+                        2 => "ndefunct".to_string(),
+                        3 => format!("nrejoin {} {} {} {}", id, toks[2], ts + 1, toks[4]),
+                        // renamed to a newer identity on another address / of another actor
+                        4 => format!("nrename {} {} {} {}", id, rng.range(1, 3), ts + 1, toks[4]),
+                        _ => format!("nrename {} {} {} {}", rng.range(1, 4), toks[2], ts, toks[4]),
+                    });
+                }
+                if rng.chance(1, 3) {
+                    out.push("flush".to_string());
+                    queued = false;
+                }
+            }
+            _ => {
+                if queued {
+                    out.push("flush".to_string());
+                    queued = false;
+                }
+                out.push(op);
+            }
+        }
+    }
+    if queued {
+        out.push("flush".to_string());
+    }
+    out
 }
 
 impl Prop for C18 {
@@ -572,8 +816,10 @@ impl Prop for C18 {
         }
         None
     }
-    fn gen_case(&self, rng: &mut Rng, _tier: Tier, _index: usize) -> Vec<String> {
-        gen_seq(rng)
+    fn gen_case(&self, rng: &mut Rng, _tier: Tier, index: usize) -> Vec<String> {
+        let ops = gen_seq(rng);
+        // every 8th sequence goes through the real agent's handle_notifications
+        if index % 8 == 7 { to_glue(rng, ops) } else { ops }
     }
     fn exec_case(&self, ops: &[String]) -> CaseResult {
         exec(ops)
